@@ -524,3 +524,49 @@ func checkGameSide(c *Ctx) {
 	}
 	c.Min("R6", "hand-side validators", len(playValidators)+len(actValidators), 2)
 }
+
+// checkTurnTestOnHandState (C02.R9, the definition half of C10.R6): the backend applies a wager action to whoever is
+// current in the state the hand holds — the index the caller names is only *compared*. So the entry an action is
+// booked under is the caller's own only if the success exits of the hand's wager validator establish "that index is
+// the current player of the hand's own state (g.gs)", not of a copy published elsewhere (the table's mirror lags).
+func checkTurnTestOnHandState(c *Ctx, rule string) {
+	p := c.P
+	gt := p.singleImpl("", "Game")
+	if gt == nil {
+		c.Bad(rule, "anchors", "-", "hand implementation not found")
+		return
+	}
+	vals := map[*ssa.Function]bool{}
+	for _, name := range p.gameSingleActions() {
+		f := p.Method(gt, name)
+		if f == nil || len(f.Params) < 2 {
+			continue
+		}
+		for _, in := range f.Blocks[0].Instrs {
+			if call, ok := in.(*ssa.Call); ok {
+				if isLogCall(call) {
+					continue
+				}
+				if sc := call.Common().StaticCallee(); sc != nil && p.IsRepoFunc(sc) && len(call.Call.Args) == 2 && call.Call.Args[1] == f.Params[1] && isErrorType(call.Type()) {
+					vals[sc] = true
+				}
+				break
+			}
+		}
+	}
+	for v := range vals {
+		oks, _, _, _, ab := p.ExitsWithGuards(v)
+		good := !ab && len(oks) > 0
+		for _, gs := range oks {
+			cur := cmpHolds(gs, func(l, r *Sym, op token.Token) bool {
+				l = l.Strip()
+				return op == token.EQL && l.IsField("Status", "CurrentPlayer") && l.PathHas("game", "gs") && r.Strip().Kind == "param"
+			})
+			if !cur {
+				good = false
+			}
+		}
+		c.Check(good, rule, "turn-test-on-the-hand's-own-state:"+fnName(v), p.Pos(v.Pos()), "ok ⇒ index == current player of the state the hand holds", "the wager validator can succeed without having compared the caller's index with the current player of the hand's own state: the backend moves whoever is current, and the action is booked under an entry that is not the caller's")
+	}
+	c.Min(rule, "wager validators of the hand", len(vals), 1)
+}
